@@ -514,3 +514,19 @@ Definition run_its (its : gr) (core reindex explicit_h : bool) : tok :=
 Definition run_smart (r p : gr) (eo : list (N * N)) (core reindex explicit_h : bool) : tok :=
   let rec := smart_to_gml r p eo core reindex explicit_h in
   L [t_gr (its_construct r p eo); t_rec rec; t_parsed (gml_to_nx rec)].
+
+(** * Vocabulary of the theorems (props/C10.v) *)
+(** hydrogens carried by one node: its implicit count, plus one if the node is itself a hydrogen atom *)
+Definition node_h (a : natt) : Z := dflt (a_hc a) 0 + (if el_is_H a then 1 else 0).
+Definition hsum (l : list (N * natt)) : Z := fold_right (fun p acc => node_h (snd p) + acc) 0 l.
+(** total hydrogen count of a graph: sum of hcount + number of explicit H nodes *)
+Definition total_h (g : gr) : Z := hsum (gnodes g).
+(** the list h_to_implicit computes for a hydrogen node *)
+Definition heavy_nbrs (g : gr) (h : N) : list N := filter (fun n => negb (is_H g n)) (nbrs g h).
+(** domain of the hydrogen-count clause for h_to_implicit: every explicit H carries no implicit hydrogens of its
+    own and has at most one heavy neighbour, which is a node of the graph *)
+Definition h_ok_node (g : gr) (p : N * natt) : bool :=
+  negb (el_is_H (snd p)) ||
+  ((dflt (a_hc (snd p)) 0 =? 0) &&
+   match heavy_nbrs g (fst p) with [] => true | [x] => has_node g x | _ => false end).
+Definition h_dom (g : gr) : bool := forallb (h_ok_node g) (gnodes g).
